@@ -38,3 +38,11 @@ pub open spec fn err_ok(s: &str, e: ParseError) -> bool {
 pub open spec fn errs_ok(s: &str, es: Seq<ParseError>) -> bool {
     forall|i: int| 0 <= i < es.len() ==> err_ok(s, #[trigger] es[i])
 }
+
+/// the tokens are in source order and do not overlap (C17/C23: consumers build text edits from the gaps between them)
+pub open spec fn toks_sorted<'a>(ts: Seq<Token<'a>>) -> bool {
+    forall|i: int, j: int| #![trigger ts[i], ts[j]] 0 <= i < j < ts.len() ==> ts[i].position.end_offset <= ts[j].position.start_offset
+}
+pub open spec fn toks_upto<'a>(ts: Seq<Token<'a>>, o: int) -> bool {
+    forall|i: int| 0 <= i < ts.len() ==> (#[trigger] ts[i]).position.end_offset <= o
+}
